@@ -172,7 +172,8 @@ def problems(progs, names, modname, text):
     try:
         compile(text, '<dump>', 'exec')
     except SyntaxError as e:
-        if "'await' outside" in str(e) and any(p.uses_await() for p in progs):
+        # top-level asynchronous constructs (an await expression, an asynchronous comprehension) in a plain `def`: K-C19-b
+        if ("'await' outside" in str(e) or 'asynchronous comprehension outside' in str(e)) and any(p.uses_await() for p in progs):
             out.append(('await-in-plain-def', 'the dump does not compile: %s' % e))
         else:
             out.append(('syntax', 'the dump does not compile: %s' % e))
@@ -202,7 +203,7 @@ def problems(progs, names, modname, text):
         b = [ast.dump(x) for x in ref]
         if a != b:
             a2 = [ast.dump(_norm_consts(x)) for x in stmts]
-            if a2 == b and any(s.kind in ('tripstr', 'tripbare') for s in prog.stmts):
+            if a2 == b and any(s.kind in ('tripstr', 'tripbare', 'tripws') for s in prog.stmts):
                 out.append(('string-indent', '%s: a multi-line string literal changed its value by the 4-column re-indentation' % fn.name))
             else:
                 out.append(('statements', '%s: statements differ from the program: %r vs %r' % (fn.name, a, b)))
